@@ -134,6 +134,60 @@ fn varu(mut x: u64) -> Vec<u8> {
     }
 }
 
+/// a user codec that stores its payload as a compressed block through the context it is given
+#[derive(Debug, PartialEq, Clone)]
+pub struct Blob(pub Vec<u8>, pub u32);
+impl desert_core::BinarySerializer for Blob {
+    fn serialize<O: BinaryOutput>(&self, ctx: &mut SerializationContext<O>) -> desert_core::Result<()> {
+        ctx.write_compressed(&self.0, flate2::Compression::new(self.1))
+    }
+}
+impl desert_core::BinaryDeserializer for Blob {
+    fn deserialize(ctx: &mut DeserializationContext<'_>) -> desert_core::Result<Self> {
+        Ok(Blob(ctx.read_compressed()?, 0))
+    }
+}
+impl crate::model::ModelType for Blob {
+    fn from_model(_v: &Value) -> Self {
+        Blob(vec![], 0)
+    }
+    fn to_model(&self) -> Value {
+        json!(self.0)
+    }
+}
+
+/// The frame is a value like any other: inside a tuple (headerless record) and inside chunk 1 of a record with a
+/// header (written into the chunk's buffer, not past it) it is the frame the plain sinks produce, at its place.
+fn blob_in_records(name: &str, d: &[u8], level: u32, frame: &[u8], r: &mut Report) {
+    use crate::inchunk::InChunk;
+    r.count("frame_in_record");
+    let blob = Blob(d.to_vec(), level);
+    let got = guarded(|| {
+        let top = desert_core::serialize_to_byte_vec(&blob)?;
+        let tup = desert_core::serialize_to_byte_vec(&(7u8, blob.clone(), 9u8))?;
+        let chunk = desert_core::serialize_to_byte_vec(&InChunk { pre: 7u8, mid: blob.clone(), post: 9u8 })?;
+        let back: InChunk<Blob> = desert_core::deserialize(&chunk)?;
+        Ok::<_, desert_core::Error>((top, tup, chunk, back.mid.0 == d && back.pre == 7 && back.post == 9))
+    });
+    let mut var = Vec::new();
+    var.write_var_i32(frame.len() as i32);
+    let mut want_tup = vec![0u8, 7];
+    want_tup.extend_from_slice(frame);
+    want_tup.push(9);
+    let mut want_chunk = vec![1u8, 4];          // version 1, chunk 0 = [pre, post] (2 bytes, zig-zag 4)
+    want_chunk.extend_from_slice(&var);         // step 1 = FieldAdded: size of chunk 1
+    want_chunk.extend_from_slice(&[7, 9]);
+    want_chunk.extend_from_slice(frame);
+    match got {
+        Ok(Ok((top, tup, chunk, back))) if top == frame && tup == want_tup && chunk == want_chunk && back => {}
+        other => r.finding("frame_in_record", &["C16"], json!({"content": name, "level": level,
+            "what": "a compressed block written through a context inside a record is not the frame at its place",
+            "got": match other { Ok(Ok((top, tup, chunk, back))) => json!({"top_ok": top == frame, "tuple_ok": tup == want_tup, "chunk_ok": chunk == want_chunk,
+                                                                            "chunk_head": &chunk[..chunk.len().min(12)], "read_back": back}),
+                                 Ok(Err(e)) => json!(e.to_string()), Err(p) => json!({"panic": p}) }})),
+    }
+}
+
 pub fn compress_case(case: &Value, _d: Dispatch, r: &mut Report) {
     let mut trace = std::io::BufWriter::new(std::fs::File::create(case["trace_out"].as_str().unwrap()).expect("trace file"));
     let mut frames = std::io::BufWriter::new(std::fs::File::create(case["frames_out"].as_str().unwrap()).expect("frames file"));
@@ -155,6 +209,9 @@ pub fn compress_case(case: &Value, _d: Dispatch, r: &mut Report) {
                 r.finding("sinks", &["C16", "C15"], json!({"content": name, "level": level, "lens": [fs[0].len(), fs[1].len(), fs[2].len()]}));
             }
             let f = &fs[0];
+            if d.len() <= 70000 {
+                blob_in_records(name, &d, level, f, r);
+            }
             writeln!(trace, "{}", json!({"ev": "frame", "dlen": d.len(), "total": f.len(), "head": &f[..f.len().min(10)]})).unwrap();
             writeln!(frames, "{}", json!({"name": name, "gen": kind, "n": n, "seed": seed, "level": level,
                 "frame": f.iter().map(|b| format!("{b:02x}")).collect::<String>()})).unwrap();
